@@ -34,8 +34,13 @@ CLAIMED = {
     'C15': ('theorems over the Lean model of log_writer.c/log_reader.c/crc32c.c for all record lists, offsets and cut points (round trip, truncation, compositional reuse, CRC = bitwise CRC-32C, '
             'single-byte alterations always detected), re-checked by the kernel on every run; the model is tied to the code by exact byte/event correspondence on generated inputs',
             'Lean 4 proof + model/implementation correspondence', '7 C15'),
+    'C16': ('round-trip and cursor theorems for blocks (block_roundtrip, blockIter_is_cursor), filters (bloom_no_false_negative, filter_covers_block), Snappy (snappy_roundtrip for the concrete encoder), '
+            'footer/handles, separator/successor contracts for ALL byte strings; byte-exact correspondence of every builder and reader with the Lean models, which are the independently written readers',
+            'Lean 4 proof + model/implementation correspondence', '7 C16'),
     'C17': ('varint32/64 and version-edit round-trip theorems for all values; tag constants re-extracted from the source and proved equal to the model; exact differential correspondence of '
             'ldb_edit_export/import and the varint coders', 'Lean 4 proof + model/implementation correspondence', '7 C17'),
+    'C18': ('no-fault/totality theorems for every modelled decoder (explicit guards mirrored from the C code; fault outcome unreachable), with sanitizer-backed differential fuzzing of the real decoders '
+            'against the models on malformed and hand-crafted inputs', 'Lean 4 proof + sanitizer-backed differential correspondence', '7 C18'),
     'C20': ('owned-file-name grammar theorem for ldb_parse_filename (destroy touches only owned names) + exact correspondence on all short strings; lifecycle sequences vs model',
             'Lean 4 proof + model/implementation correspondence', '7 C20'),
 }
